@@ -394,8 +394,9 @@ def process_round(ctx: Ctx, rng, idx: int) -> None:
     F = [tuple(x) for x in [(r.get("w"), r.get("n")) for r in __import__("optuna").storages.journal.JournalFileBackend(path).read_logs(0)]]
     offs = true_offsets(path)
     for e in finals:
-        if [tuple(x) for x in e[2]] != F:
-            ctx.violation({**facts, "kind": "later_read_differs_from_fresh_reader", "raised": False}, f"process {e[1]}: final read_logs(0) differs from a fresh reader", case)
+        # (other processes may still have been appending: the child's last view must be a PREFIX of the final log)
+        if [tuple(x) for x in e[2]] != F[: len(e[2])]:
+            ctx.violation({**facts, "kind": "later_read_differs_from_fresh_reader", "raised": False}, f"process {e[1]}: its last read_logs(0) is not a prefix of the final log", case)
             return
         for num, off in e[3].items():
             if int(num) >= len(offs) or offs[int(num)] != off:
